@@ -2,7 +2,8 @@ import PepperModel.Des
 /-!
 # C03 — lemmas about the `.des` document, its semantics and the design of the object tables
 
-1. the four line kinds of a component / signal block (`*Lines_compDoc`, `*Lines_signalDoc`);
+1. the four line kinds of a component / signal block (`*Lines_compDoc`, `*Lines_signalDoc`); the `done` set of
+   `System.output_nupack` (`dedupEntries_sub` / `_cover` / `_keys_nodup` / `_sublist` / `_first` / `_eq_self`);
 2. base pairs of a duplex `(ⁿ+)ⁿ` (`pairs_duplex`) and what a duplex over `X Y` says (`duplex_sat`);
 3. the signal connector over any complement-involutive base type (`gadget_forces`, `gadget_holds`,
    `signal_gadget_equiv`);
@@ -86,6 +87,154 @@ theorem boundLines_compDoc (st : Comp.St) :
     simp only [List.flatMap_cons, ih, List.filter_cons]
     cases h : e.opt.isZero <;> simp
 
+/-! ### the `done` set of `System.output_nupack` (`Sys.dedupEntries`, repair F17) -/
+
+/-- the key under which `System.output_nupack` remembers a written connector: its name after the signal's, and the
+    orientation -/
+def dupKey (e : SigEntry) : String × Bool := (e.connName, e.wc)
+
+theorem portItems_fst_connName (pfx : String) (e : SigEntry) : (portItems pfx e).1 = e.connName := by
+  unfold portItems SigEntry.connName
+  cases e.port with
+  | seq i b => simp only; split <;> rfl
+  | sig n => rfl
+
+theorem mem_dedupAux {seen : List (String × Bool)} {es : List SigEntry} {e : SigEntry}
+    (h : e ∈ dedupEntriesAux seen es) : e ∈ es ∧ dupKey e ∉ seen := by
+  induction es generalizing seen with
+  | nil => simp [dedupEntriesAux] at h
+  | cons x r ih =>
+    simp only [dedupEntriesAux] at h
+    split at h
+    · obtain ⟨h1, h2⟩ := ih h; exact ⟨List.mem_cons_of_mem _ h1, h2⟩
+    · rename_i hc
+      rcases List.mem_cons.1 h with rfl | h'
+      · exact ⟨List.mem_cons_self, by simpa [dupKey] using hc⟩
+      · obtain ⟨h1, h2⟩ := ih h'
+        exact ⟨List.mem_cons_of_mem _ h1, fun hm => h2 (List.mem_cons_of_mem _ hm)⟩
+
+/-- every deduplicated entry is an entry -/
+theorem dedupEntries_sub {es : List SigEntry} {e : SigEntry} (h : e ∈ dedupEntries es) : e ∈ es := (mem_dedupAux h).1
+
+theorem dedupAux_cover {seen : List (String × Bool)} {es : List SigEntry} {e : SigEntry} (he : e ∈ es)
+    (hs : dupKey e ∉ seen) : ∃ e' ∈ dedupEntriesAux seen es, dupKey e' = dupKey e := by
+  induction es generalizing seen with
+  | nil => cases he
+  | cons x r ih =>
+    simp only [dedupEntriesAux]
+    by_cases hc : seen.contains (x.connName, x.wc) = true
+    · rw [if_pos hc]
+      rcases List.mem_cons.1 he with rfl | he'
+      · exact absurd (by simpa [dupKey] using hc) hs
+      · exact ih he' hs
+    · rw [if_neg hc]
+      by_cases hk : dupKey e = dupKey x
+      · exact ⟨x, List.mem_cons_self, hk.symm⟩
+      · rcases List.mem_cons.1 he with rfl | he'
+        · exact absurd rfl hk
+        · obtain ⟨e', h1, h2⟩ := ih (seen := (x.connName, x.wc) :: seen) he' (by
+            intro hm
+            rcases List.mem_cons.1 hm with h | h
+            · exact hk h
+            · exact hs h)
+          exact ⟨e', List.mem_cons_of_mem _ h1, h2⟩
+
+/-- every entry is represented: an entry with the same connector name and orientation is kept -/
+theorem dedupEntries_cover {es : List SigEntry} {e : SigEntry} (he : e ∈ es) :
+    ∃ e' ∈ dedupEntries es, e'.connName = e.connName ∧ e'.wc = e.wc := by
+  obtain ⟨e', h1, h2⟩ := dedupAux_cover (seen := []) he (by simp)
+  exact ⟨e', h1, (Prod.mk.inj h2).1, (Prod.mk.inj h2).2⟩
+
+theorem dedupAux_keys_nodup (seen : List (String × Bool)) (es : List SigEntry) :
+    ((dedupEntriesAux seen es).map dupKey).Nodup := by
+  induction es generalizing seen with
+  | nil => simp [dedupEntriesAux]
+  | cons x r ih =>
+    simp only [dedupEntriesAux]
+    split
+    · exact ih seen
+    · rw [List.map_cons, List.nodup_cons]
+      refine ⟨?_, ih _⟩
+      intro hm
+      obtain ⟨e, he, hk⟩ := List.mem_map.1 hm
+      exact (mem_dedupAux he).2 (by rw [hk]; exact List.mem_cons_self)
+
+/-- the kept entries have pairwise distinct (connector name, orientation) -/
+theorem dedupEntries_keys_nodup (es : List SigEntry) : ((dedupEntries es).map dupKey).Nodup :=
+  dedupAux_keys_nodup [] es
+
+theorem dedupAux_sublist (seen : List (String × Bool)) (es : List SigEntry) : (dedupEntriesAux seen es).Sublist es := by
+  induction es generalizing seen with
+  | nil => simp [dedupEntriesAux]
+  | cons x r ih =>
+    simp only [dedupEntriesAux]
+    split
+    · exact (ih seen).cons _
+    · exact (ih _).cons_cons _
+
+/-- the kept entries come in the order of the table -/
+theorem dedupEntries_sublist (es : List SigEntry) : (dedupEntries es).Sublist es := dedupAux_sublist [] es
+
+theorem dedupAux_eq_self {seen : List (String × Bool)} {es : List SigEntry} (hn : (es.map dupKey).Nodup)
+    (hs : ∀ e ∈ es, dupKey e ∉ seen) : dedupEntriesAux seen es = es := by
+  induction es generalizing seen with
+  | nil => rfl
+  | cons x r ih =>
+    rw [List.map_cons, List.nodup_cons] at hn
+    simp only [dedupEntriesAux]
+    have hc : ¬ seen.contains (x.connName, x.wc) = true := by
+      have := hs x List.mem_cons_self
+      simpa [dupKey] using this
+    rw [if_neg hc, ih hn.2]
+    intro e he hm
+    rcases List.mem_cons.1 hm with h | h
+    · exact hn.1 (List.mem_map.2 ⟨e, he, h⟩)
+    · exact hs e (List.mem_cons_of_mem _ he) h
+
+/-- nothing is dropped from a table without repeated (connector name, orientation) -/
+theorem dedupEntries_eq_self {es : List SigEntry} (hn : (es.map dupKey).Nodup) : dedupEntries es = es :=
+  dedupAux_eq_self hn (fun _ _ => by simp)
+
+/-- the first entry of the table is kept -/
+theorem dedupEntries_head (e : SigEntry) (r : List SigEntry) : ∃ t, dedupEntries (e :: r) = e :: t := by
+  simp [dedupEntries, dedupEntriesAux]
+
+theorem dedupAux_first {seen : List (String × Bool)} {es : List SigEntry} {e : SigEntry}
+    (he : e ∈ dedupEntriesAux seen es) : es.find? (fun x => dupKey x == dupKey e) = some e := by
+  induction es generalizing seen with
+  | nil => simp [dedupEntriesAux] at he
+  | cons x r ih =>
+    simp only [dedupEntriesAux] at he
+    rw [List.find?_cons]
+    split at he
+    · rename_i hc
+      have hx : dupKey x ∈ seen := by simpa [dupKey] using hc
+      have hne : (dupKey x == dupKey e) = false := by
+        apply beq_false_of_ne
+        intro h
+        exact (mem_dedupAux he).2 (h ▸ hx)
+      rw [hne]; exact ih he
+    · rcases List.mem_cons.1 he with rfl | he'
+      · simp
+      · have hne : (dupKey x == dupKey e) = false := by
+          apply beq_false_of_ne
+          intro h
+          exact (mem_dedupAux he').2 (h ▸ List.mem_cons_self)
+        rw [hne]; exact ih he'
+
+/-- the kept entry of a (connector name, orientation) is the first one of the table -/
+theorem dedupEntries_first {es : List SigEntry} {e : SigEntry} (he : e ∈ dedupEntries es) :
+    es.find? (fun x => dupKey x == dupKey e) = some e := dedupAux_first he
+
+/-- entries that share connector name and orientation are the same entry -/
+def SameDup (es : List SigEntry) : Prop :=
+  ∀ e ∈ es, ∀ e' ∈ es, e.connName = e'.connName → e.wc = e'.wc → e = e'
+
+theorem mem_dedup_of_same {es : List SigEntry} (hd : SameDup es) {e : SigEntry} (he : e ∈ es) : e ∈ dedupEntries es := by
+  obtain ⟨e', h1, h2, h3⟩ := dedupEntries_cover he
+  have := hd e' (dedupEntries_sub h1) e he h2 h3
+  exact this ▸ h1
+
 /-! ### the projections of a signal block -/
 
 theorem seqLines_signalDoc (pfx sg : String) (len : Nat) (es : List SigEntry) :
@@ -98,7 +247,8 @@ theorem seqLines_signalDoc (pfx sg : String) (len : Nat) (es : List SigEntry) :
 
 theorem structLines_signalDoc (pfx sg : String) (len : Nat) (es : List SigEntry) :
     structLines (signalDoc pfx sg len es) =
-      (pfx ++ sg ++ "-_Self", duplex len) :: es.map (fun e => (pfx ++ sg ++ "-" ++ (portItems pfx e).1, duplex len)) := by
+      (pfx ++ sg ++ "-_Self", duplex len) ::
+        (dedupEntries es).map (fun e => (pfx ++ sg ++ "-" ++ (portItems pfx e).1, duplex len)) := by
   simp only [structLines, signalDoc, List.filterMap_append, List.filterMap_flatMap]
   rw [flatMap_singleton' _ _ (fun e => (pfx ++ sg ++ "-" ++ (portItems pfx e).1, duplex len))]
   · rfl
@@ -107,7 +257,7 @@ theorem structLines_signalDoc (pfx sg : String) (len : Nat) (es : List SigEntry)
 theorem assignLines_signalDoc (pfx sg : String) (len : Nat) (es : List SigEntry) :
     assignLines (signalDoc pfx sg len es) =
       (pfx ++ sg ++ "-_Self", [⟨wcName pfx sg, false⟩, ⟨pfx ++ sg, false⟩]) ::
-      es.map (fun e => (pfx ++ sg ++ "-" ++ (portItems pfx e).1,
+      (dedupEntries es).map (fun e => (pfx ++ sg ++ "-" ++ (portItems pfx e).1,
         (⟨if e.wc then pfx ++ sg else wcName pfx sg, false⟩ : Item) :: (portItems pfx e).2)) := by
   simp only [assignLines, signalDoc, List.filterMap_append, List.filterMap_flatMap]
   rw [flatMap_singleton' _ _ (fun e => (pfx ++ sg ++ "-" ++ (portItems pfx e).1,
@@ -775,7 +925,7 @@ theorem self_positions :
 
 theorem port_items_nucs {e : SigEntry} (he : e ∈ es) :
     (portItems pfx e).2.flatMap (itemNucs (docOf bs)) = portNucs pfx len e := by
-  have eok : EntryOk (designOfBlocks bs).domains pfx len e := ok.blocks _ hb e he
+  have eok : EntryOk (designOfBlocks bs).domains pfx len e := (ok.blocks _ hb).1 e he
   have sub : ∀ q ∈ (designOfBlocks bs).domains, q ∈ seqLines (docOf bs) := fun q hq => domains_sub hq
   unfold EntryOk at eok
   unfold portItems portNucs
@@ -793,7 +943,7 @@ theorem port_items_nucs {e : SigEntry} (he : e ∈ es) :
     simp only [hp] at eok ⊢
     simp [itemNucs, seqLen_resolves ok sub eok]
 
-theorem entry_positions {e : SigEntry} (he : e ∈ es) :
+theorem entry_positions {e : SigEntry} (he : e ∈ dedupEntries es) :
     desPositions (docOf bs) (pfx ++ sg ++ "-" ++ (portItems pfx e).1) =
       (if e.wc then fwd (pfx ++ sg) len else fwd (wcName pfx sg) len) ++ portNucs pfx len e := by
   have hA : (pfx ++ sg ++ "-" ++ (portItems pfx e).1,
@@ -801,12 +951,12 @@ theorem entry_positions {e : SigEntry} (he : e ∈ es) :
     apply mem_assign_block hb
     simp only [blockDoc, assignLines_signalDoc]
     exact List.mem_cons_of_mem _ (List.mem_map.2 ⟨e, he, rfl⟩)
-  rw [desPositions_of ok hA, List.flatMap_cons, port_items_nucs ok hb he]
+  rw [desPositions_of ok hA, List.flatMap_cons, port_items_nucs ok hb (dedupEntries_sub he)]
   congr 1
   cases e.wc <;> simp [itemNucs, seqLen_sig ok hb, seqLen_wc ok hb]
 
 theorem portNucs_length {e : SigEntry} (he : e ∈ es) : (portNucs pfx len e).length = len := by
-  have eok : EntryOk (designOfBlocks bs).domains pfx len e := ok.blocks _ hb e he
+  have eok : EntryOk (designOfBlocks bs).domains pfx len e := (ok.blocks _ hb).1 e he
   unfold EntryOk at eok
   unfold portNucs
   cases hp : e.port with
@@ -822,7 +972,7 @@ theorem portNucs_length {e : SigEntry} (he : e ∈ es) : (portNucs pfx len e).le
 /-- the nucleotides of a bound port lie on domains of the program -/
 theorem portNucs_dom {e : SigEntry} (he : e ∈ es) {m : Nuc} (hm : m ∈ portNucs pfx len e) :
     ∃ q ∈ (designOfBlocks bs).domains, q.1 = m.var.dom := by
-  have eok : EntryOk (designOfBlocks bs).domains pfx len e := ok.blocks _ hb e he
+  have eok : EntryOk (designOfBlocks bs).domains pfx len e := (ok.blocks _ hb).1 e he
   unfold EntryOk at eok
   unfold portNucs at hm
   cases hp : e.port with
@@ -892,14 +1042,16 @@ theorem gadget_of_block {bs : List Block} (ok : BlocksOk bs) {pfx sg : String} {
   simp only [blockDoc, structLines_signalDoc, List.forall_mem_cons, List.forall_mem_map]
   rw [self_positions ok hb]
   apply and_congr Iff.rfl
+  have hd : SameDup es := (ok.blocks _ hb).2
   constructor
   · intro h e he
-    have := h e he
-    rw [entry_positions ok hb he] at this
+    have hde := mem_dedup_of_same hd he
+    have := h e hde
+    rw [entry_positions ok hb hde] at this
     cases hw : e.wc <;> simpa [hw] using this
   · intro h e he
     rw [entry_positions ok hb he]
-    have := h e he
+    have := h e (dedupEntries_sub he)
     cases hw : e.wc <;> simpa [hw] using this
 
 theorem regionOf_port (pfx : String) (len : Nat) (e : SigEntry) :
